@@ -98,7 +98,7 @@ def run : Op → M Out
   | .resetCounter => unitOut BitString.resetCounter
   | .grow n => unitOut (BitString.grow n)
   | .append src => unitOut (BitString.append src)
-  | .copy => fun s => (.ok .unit, BitString.copy s)
+  | .copy => unitOut (BitString.modify BitString.copy)
 
 /-- run a list of operations: the outcome of every operation, stopping after the first panic (Go would unwind) -/
 def runAll : List Op → BitString → List (Outcome Out) × BitString
